@@ -239,7 +239,7 @@ func scenarioLaggards(compact bool) []caseOut {
 	a.sendDirect(enc(cert), []*SimNode{n4})
 	used, why := a.continuation()
 	if used < 0 && why != "cutoff" {
-		a.violate("C07/no-decision-within-f+3-rounds"+a.wedgeCause()+a.suffix(), "n=4, operator 2 Byzantine then silent: operator 4 decided through a certificate only it received; with the runner's compaction its round-change container is emptied after every round-change, it is never pulled by the partial quorum of operators 1 and 3, and these two alone cannot form a quorum in any later round")
+		a.violate("C07/no-decision-within-f+3-rounds"+a.wedgeCause()+a.suffixPlain(), "n=4, operator 2 Byzantine then silent: operator 4 decided through a certificate only it received; with the runner's compaction its round-change container is emptied after every round-change, it is never pulled by the partial quorum of operators 1 and 3, and these two alone cannot form a quorum in any later round")
 	} else {
 		tags = append(tags, fmt.Sprintf("c07/laggards-scenario-decided-after-%d-rounds", used))
 	}
@@ -284,7 +284,7 @@ func scenarioLoneLaggard() []caseOut {
 	a.sendDirect(enc(cert), []*SimNode{n3, n4})
 	used, why := a.continuation()
 	if used < 0 && why != "cutoff" {
-		a.violate("C07/no-decision-within-f+3-rounds"+a.wedgeCause()+a.suffix(), "n=4, operator 1 Byzantine then silent: operators 3 and 4 decided through a certificate only they received and neither time out nor re-broadcast it; operator 2 alone (fewer than f+1) never pulls them and never forms a quorum")
+		a.violate("C07/no-decision-within-f+3-rounds"+a.wedgeCause()+a.suffixPlain(), "n=4, operator 1 Byzantine then silent: operators 3 and 4 decided through a certificate only they received and neither time out nor re-broadcast it; operator 2 alone (fewer than f+1) never pulls them and never forms a quorum")
 	} else {
 		tags = append(tags, fmt.Sprintf("c07/lone-laggard-scenario-decided-after-%d-rounds", used))
 	}
@@ -507,7 +507,7 @@ func scenarioCommitBroadcastFault() []caseOut {
 func (a *advSim) finishC07(tags []string, what, detail string) []caseOut {
 	used, why := a.continuation()
 	if used < 0 && why != "cutoff" {
-		a.violate("C07/no-decision-within-f+3-rounds"+a.wedgeCause()+a.suffix(), detail)
+		a.violate("C07/no-decision-within-f+3-rounds"+a.wedgeCause()+a.suffixPlain(), detail)
 	} else {
 		tags = append(tags, fmt.Sprintf("c07/%s-decided-after-%d-rounds", what, used))
 	}
@@ -644,4 +644,56 @@ func scenarioRepeatedPrepareJustification() []caseOut {
 	a.pushDecision(2, A, correct)
 	a.exchange(correct, 2, rA)
 	return a.outs([]string{"case/directed", "directed/prepare-justification-quorum-length-fewer-distinct-signers"})
+}
+
+// scenarioDecidedCompactedThenPulled (seeded change C01b-m2: a prepared operator whose prepare quorum is no longer in its container
+// announces an UNPREPARED round-change), n=4, height 0, operator 2 Byzantine (leader of round 2), compaction policy decided-only: operators 1
+// and 3 see the prepare quorum for A, only operator 3 gets a commit quorum and decides A; operator 4 never prepared. 1 and 4 time
+// out; the decided operator 3 — its prepare container emptied by the runner's compaction of a decided instance — is pulled to
+// round 2 by f+1 round-changes (4's and the Byzantine one) and announces its own. The leader proposes B justified by the
+// round-changes of 3 and 4 and its own. Unchanged tree: 3's round-change still names the lock (1,A) — without justification — and
+// the proposal is refused (…/rcNotValid/noJustQuorum); nobody decides B.
+func scenarioDecidedCompactedThenPulled() []caseOut {
+	env := getEnv(4)
+	a := newDirected(env, 0, []spectypes.OperatorID{2}, true)
+	a.decidedOnly = true // with the full runner policy operator 3's round-change container is emptied after every round-change
+	A, B := valueBytes(1), valueBytes(2)
+	a.startAll([][]byte{A, A, A, A})
+	n1, n3, n4 := a.node(1), a.node(3), a.node(4)
+	a.roundOnePartial(A, 2, []*SimNode{n1, n3, n4}, []*SimNode{n1, n3}, n3, 0)
+	a.timeoutOn(n1)
+	a.timeoutOn(n4)
+	a.deliverWhere(n3, func(m *specqbft.SignedMessage) bool {
+		return isT(specqbft.RoundChangeMsgType, 2)(m) && m.Signers[0] == 4
+	})
+	a.sendDirect(enc(a.f.roundChange(2, 2, 0, nil, nil)), []*SimNode{n3})
+	victims := []*SimNode{n1, n4}
+	rcs := append(wireRCs(a, 2, 3, 4), a.f.roundChange(2, 2, 0, nil, nil))
+	a.sendDirect(enc(a.f.proposal(2, 2, B, rcs, nil)), victims)
+	a.pushDecision(2, B, victims)
+	a.exchange(victims, 2, sha256.Sum256(B))
+	return a.outs([]string{"case/directed", "directed/decided-compacted-operator-pulled-by-f+1"})
+}
+
+// scenarioBroadcastFailsAtRoundExpiry (seeded change C07b-m1: round bump / timer re-arm only after the round-change was broadcast
+// without error), n=4, height 0, operator 2 silent from the start, the round-1 proposal is lost. When round 1 expires the own
+// Broadcast of operators 3 and 4 returns an error (the message did leave); operator 1's works. Afterwards the network is timely.
+// Unchanged tree: all three are in round 2 with live timers; round 2 has the silent leader, one more timeout and round 3 decides.
+func scenarioBroadcastFailsAtRoundExpiry() []caseOut {
+	env := getEnv(4)
+	a := newDirected(env, 0, []spectypes.OperatorID{2}, false)
+	V := valueBytes(1)
+	a.startAll([][]byte{V, V, V, V})
+	n1, n3, n4 := a.node(1), a.node(3), a.node(4)
+	for _, nd := range []*SimNode{n1, n3, n4} {
+		a.distribute()
+		a.pending[nd.id] = nil
+	}
+	a.timeoutOn(n1)
+	n3.c.nf = "a"
+	a.timeoutOn(n3)
+	n4.c.nf = "a"
+	a.timeoutOn(n4)
+	return a.finishC07([]string{"case/directed", "directed/own-broadcast-fails-at-round-expiry"}, "broadcast-fails-at-round-expiry",
+		"n=4, operator 2 silent, proposal lost, the Broadcast of operators 3 and 4 failed when round 1 expired: they do not reach the later rounds")
 }
